@@ -1107,6 +1107,7 @@ class Ctx:
         saved_tag = self.cache_tag
         self.cache_tag = (name, tuple(base_prefix))
         n_local = 0
+        last_goal = None
         try:
             while local:
                 suffix = local.pop()
@@ -1122,6 +1123,7 @@ class Ctx:
                 caches = (dict(self.sqrt_cache), dict(self.trig_cache))
                 try:
                     g = self.eval_clause(text, env, old)
+                    last_goal = g
                     self.check(g, name, kind, text, line)
                 except PathEnd:
                     pass
@@ -1138,6 +1140,12 @@ class Ctx:
             self.dec_idx = base_idx
             self.worklist = outer_work
             self.cache_tag = saved_tag
+        # a clause that was evaluated without any local fork and discharged becomes a hypothesis for the clauses
+        # after it (measured: qchichange's orientation clause needs the norm clause, 4 s instead of 120 s)
+        ob = self.result.obligs.get(name)
+        if n_local == 1 and last_goal is not None and not isinstance(last_goal, bool) and ob is not None \
+                and ob.status == "discharged":
+            self._add_pc(last_goal)
 
     def _sidecar_of(self, c):
         if c.sidecar == self.contract.sidecar:
